@@ -28,6 +28,8 @@ import YashModel.Pipe.WChainLemmas
 import YashModel.Pipe.WChainMeasure
 import YashModel.Pipe.StopLemmas
 import YashModel.Pipe.ReadCompose
+import YashModel.Pipe.TChainLemmas
+import YashModel.Pipe.Lossy
 namespace YashModel.Pipe
 
 variable {α : Type}
@@ -61,6 +63,15 @@ theorem real_fd_targets :
     Generated.PipeConsts.MOVE_DUP_SOURCE = 1 ∧ Generated.PipeConsts.MOVE_DUP_MIN = 0 ∧
     Generated.PipeConsts.MOVE_WRITER_TARGET = 1 ∧ Generated.PipeConsts.MOVE_READER_GUARD_FD = 0 ∧
     Generated.PipeConsts.MOVE_READER_TARGET = 0 := by decide
+
+/-- How a here-document reaches the command, as extracted from `here_doc::open_fd` / `fill_content` on this run:
+    no `pipe(` call (there is no size threshold: the source carries a `TODO Use a pipe for short content`; bodies
+    of every size go to the temporary file), one `open_tmpfile(`, and the rewind is `SeekFrom::Start(0)` — what
+    `heredocFill` of File.lean transcribes and `heredoc_delivers_bytes` is about.  A threshold with a pipe, or a
+    relative rewind, changes these numbers and breaks this `decide`. -/
+theorem real_heredoc_delivery :
+    Generated.PipeConsts.HEREDOC_PIPE_CALLS = 0 ∧ Generated.PipeConsts.HEREDOC_TMPFILE_CALLS = 1 ∧
+    Generated.PipeConsts.HEREDOC_SEEK_ORIGIN = 0 ∧ Generated.PipeConsts.HEREDOC_SEEK_OFFSET = 0 := by decide
 
 /-- ★ Conservation: in every reachable state — every payload, every capacity with
     `1 ≤ PIPE_BUF ≤ PIPE_SIZE`, every request/buffer size ≥ 1, every interleaving —
@@ -351,6 +362,36 @@ theorem subst_strips_exactly (bs : List Nat) :
 
 /-- on a concrete output with interior and trailing newlines and a multi-byte character -/
 example : substValue [230, 157, 177, 10, 10, 97, 10, 195, 169, 10, 10, 10] = [230, 157, 177, 10, 10, 97, 10, 195, 169] := by
+  decide
+
+/-- ★ Command substitution on output that is not UTF-8, stated for the general decoder (`lossyGen` = C18's model of
+    `String::from_utf8_lossy`, which is what `expand_common` falls back to; the driver uses it for the payloads with
+    ill-formed sequences of every kind): for EVERY child output the value is the lossily decoded output minus all
+    its trailing occurrences of the extracted trim character and nothing else — value ++ k such characters = decoded
+    output, the value does not end in one, it is the only such list.  (U+FFFD never ends in a newline byte, so an
+    ill-formed tail is kept.) -/
+theorem subst_lossy_strips_exactly (bs : List Nat) :
+    (∃ k, trimEnd Generated.PipeConsts.SUBST_TRIM_CHAR (lossyGen bs) ++
+        List.replicate k Generated.PipeConsts.SUBST_TRIM_CHAR = lossyGen bs) ∧
+    (trimEnd Generated.PipeConsts.SUBST_TRIM_CHAR (lossyGen bs)).getLast? ≠ some Generated.PipeConsts.SUBST_TRIM_CHAR ∧
+    (∀ t k, t ++ List.replicate k Generated.PipeConsts.SUBST_TRIM_CHAR = lossyGen bs →
+      t.getLast? ≠ some Generated.PipeConsts.SUBST_TRIM_CHAR →
+      t = trimEnd Generated.PipeConsts.SUBST_TRIM_CHAR (lossyGen bs)) := by
+  have h1 := trim_exact Generated.PipeConsts.SUBST_TRIM_CHAR (lossyGen bs)
+  exact ⟨⟨_, h1.1⟩, h1.2, fun t k ht hl => trim_unique _ (lossyGen bs) t k ht hl⟩
+
+/-- what the decoder does, class by class (each ill-formed maximal prefix becomes EF BF BD, decoding resumes at the
+    offending byte): lone continuation; truncated 3-byte sequence before ASCII; overlong C0 AF (two bytes that cannot
+    occur); surrogate ED A0 80; F5; truncated 4-byte sequence at the end; 0xFF as `lossyFF`; valid text untouched -/
+example :
+    lossyGen [97, 128, 98] = [97, 239, 191, 189, 98] ∧
+    lossyGen [230, 157, 97] = [239, 191, 189, 97] ∧
+    lossyGen [192, 175] = [239, 191, 189, 239, 191, 189] ∧
+    lossyGen [237, 160, 128] = [239, 191, 189, 239, 191, 189, 239, 191, 189] ∧
+    lossyGen [245, 10] = [239, 191, 189, 10] ∧
+    lossyGen [240, 159, 152] = [239, 191, 189] ∧
+    lossyGen [97, 255, 0, 10] = lossyFF [97, 255, 0, 10] ∧
+    lossyGen [230, 157, 177, 10, 195, 169] = [230, 157, 177, 10, 195, 169] := by
   decide
 
 /-! ### the Spec's POSIX laws are met by the model operations (Spec column characterised) -/
@@ -1187,6 +1228,57 @@ theorem chain_transfer_delivers (c : Cfg) (hv : c.Valid) (seed m wk rk : Nat) (x
       exact absurd this (by simp)
   rw [if_pos hd, chain_done_complete c m x [] t hr hd]
   simp
+
+/-! ### stages that transform and that write before reading (TChain.lean) -/
+
+/-- ★ Conservation generalised: `source | stage₁ | … | stageₘ | sink` where stage `i` first writes a preamble `preᵢ`
+    (a stage that writes before it reads) and then emits `gᵢ b` for every byte `b` it reads (`[b]` = `cat`, `[b, b]`
+    doubles, `[]` drops, any per-byte filter).  In every reachable state — any stages, any interleaving, any sizes
+    ≥ 1 — pushing what is in flight through the remaining stages (`TChain.push`: held bytes as they are, bytes
+    still in a stage's input pipe through its `g`) gives exactly `stagesFun st x`, i.e. stage `i`'s output is
+    `preᵢ ++ (its input).flatMap gᵢ`, composed along the pipeline: nothing lost, duplicated, reordered or
+    transformed twice anywhere. -/
+theorem tchain_conservation (c : Cfg) (st : List ((α → List α) × List α)) (x : List α) (s : TChain α)
+    (hr : TReach c st x s) : s.push [] = stagesFun st x :=
+  hr.inv.2.2
+
+/-- ★ No deadlock with such stages: every reachable state with an unfinished process has a process that can step,
+    whatever sizes it is offered (a stage that expands its input fills the next pipe and waits; the argument from
+    the sink backwards is unchanged).  Needs `PIPE_BUF ≤ PIPE_SIZE`. -/
+theorem tchain_no_deadlock (c : Cfg) (hv : c.Valid) (st : List ((α → List α) × List α)) (x : List α)
+    (s : TChain α) (hr : TReach c st x s) (hnf : s.allDone = false) :
+    ∃ i, i < s.procs ∧ ∀ n k, (s.step c i n k).isSome = true := by
+  have ⟨hi, hw, _⟩ := hr.inv
+  rcases TChain.progress c hv s hi with h | h | ⟨_, h, _⟩
+  · rw [h] at hnf; exact absurd hnf (by simp)
+  · exact h
+  · omega
+
+/-- ★ … and a schedule can only stop with every process finished and the sink holding exactly what the pipeline
+    computes: `received = stagesFun st x`. -/
+theorem tchain_complete (c : Cfg) (hv : c.Valid) (st : List ((α → List α) × List α)) (x : List α)
+    (s : TChain α) (hr : TReach c st x s) (hstuck : ∀ i n k, 1 ≤ n → 1 ≤ k → s.step c i n k = none) :
+    s.allDone = true ∧ s.received = stagesFun st x := by
+  have ⟨hi, _, hp⟩ := hr.inv
+  have hd : s.allDone = true := by
+    cases h : s.allDone with
+    | true => rfl
+    | false =>
+      obtain ⟨i, _, hs⟩ := tchain_no_deadlock c hv st x s hr h
+      have := hs 1 1
+      rw [hstuck i 1 1 (Nat.le_refl _) (Nat.le_refl _)] at this
+      exact absurd this (by simp)
+  exact ⟨hd, by rw [← TChain.allDone_push hi hd, hp]⟩
+
+/-- a doubling stage with a preamble, then a stage that drops the even bytes: evaluated, and a few steps of the
+    concurrent system on it (PIPE_SIZE 8, PIPE_BUF 4) keep the pushed-through result -/
+example :
+    let st : List ((Nat → List Nat) × List Nat) := [(fun b => [b, b], [100]), (fun b => if b % 2 = 0 then [] else [b], [])]
+    let c : Cfg := { pipeSize := 8, pipeBuf := 4 }
+    let s := [(0, 3, 20), (1, 3, 20), (1, 3, 20), (1, 3, 20), (2, 3, 20), (2, 3, 20)].foldl
+      (fun s (a : Nat × Nat × Nat) => (s.step c a.1 a.2.1 a.2.2).getD s) (TChain.init st [1, 2, 3])
+    stagesFun st [1, 2, 3] = [1, 1, 3, 3] ∧ s.push [] = [1, 1, 3, 3] ∧ s.allDone = false := by
+  decide
 
 /-! ### the n-stage chain with explicit wakers (WChain.lean) -/
 
